@@ -5,6 +5,7 @@ CONSTANTS
   Roots <- AllRoots
   ShallowChildDict = FALSE
   SharedPath = FALSE
+  EmptyListPassThrough = FALSE
   Emit = FALSE
 INVARIANT CopyEqual
 INVARIANT Independence
